@@ -1,0 +1,27 @@
+//! A simulated clock for `Time::now()`, compiled in only with the cargo feature `verif`.
+//! Unset (the default) means the real clock is used.
+
+use std::sync::atomic::{AtomicBool, AtomicU64, Ordering};
+
+static SET: AtomicBool = AtomicBool::new(false);
+static SECS: AtomicU64 = AtomicU64::new(0);
+
+/// Set (or clear) the simulated clock
+pub fn set(secs: Option<u64>) {
+    match secs {
+        Some(s) => {
+            SECS.store(s, Ordering::SeqCst);
+            SET.store(true, Ordering::SeqCst);
+        }
+        None => SET.store(false, Ordering::SeqCst),
+    }
+}
+
+/// The simulated clock, if set
+pub fn get() -> Option<u64> {
+    if SET.load(Ordering::SeqCst) {
+        Some(SECS.load(Ordering::SeqCst))
+    } else {
+        None
+    }
+}
